@@ -138,7 +138,7 @@ def process_function(res, rep, contract, repo, findings, opts):
             nsat += 1
         elif c['result'] == 'unsat' and c['case'] not in sat_cases:
             res.covers.setdefault('infeasible_cases', []).append('%s: %s (%s)' % (rep.qual, c['case'], c['what']))
-            if 'len(' not in c['case']:
+            if 'len(' not in c['case'] and c['what'] != 'requires':
                 res.crashes.append('vacuity: case %r of %s is unreachable (%s)' % (c['case'], rep.qual, c['what']))
     if not nsat:
         res.crashes.append('vacuity: no reachable case in %s' % rep.qual)
